@@ -135,6 +135,10 @@ func (r *runner) specials(alpha []byte, maxLen int) {
 			for _, in := range window(len(s)) {
 				if args, ok := buildArgs([]Val{str(s), str(p)}, in, boolv(true)); ok {
 					r.ex("string.find", args)
+					if len(args) == 4 {
+						// a surplus fifth argument is dropped like any surplus argument: plain stays in force
+						r.ex("string.find", append(append([]Val{}, args...), str([]byte("surplus"))))
+					}
 				}
 			}
 		}
